@@ -32,6 +32,11 @@ CAT = {
     'G14': ([('w', 4, (0.0, 0.1, 0.55), (2.0, 0.4, 0.6), 0.002)], True),
     # slightly leaning grounded wires (6.4 degrees off vertical), grounded at end 1 / at end 2 with a top wire
     'G15': ([('w', 4, (0.0, 0.0, 0.0), (0.2, 0.1, 2.0), 0.002)], True),
+    # arrays of exactly vertical wires, one of them off the z axis (free space / grounded)
+    'G17': ([('w', 3, (0.0, 0.0, 0.5), (0.0, 0.0, 2.0), 0.002),
+             ('w', 3, (1.3, 0.7, 0.2), (1.3, 0.7, 1.4), 0.003)], False),
+    'G18': ([('w', 3, (0.0, 0.0, 0.0), (0.0, 0.0, 1.5), 0.002),
+             ('w', 3, (1.3, 0.7, 0.0), (1.3, 0.7, 1.2), 0.003)], True),
     'G16': ([('w', 4, (0.2, 0.1, 2.0), (0.0, 0.0, 0.0), 0.002),
              ('w', 2, (0.2, 0.1, 2.0), (1.1, 0.4, 2.1), 0.003)], True),
 }
